@@ -199,6 +199,7 @@ def job_bounded_ptrace(tier, rng, count):
             if len(keep) == 1:        # documented: keep_index may be a single int
                 ok = ok and np.abs(ut.partial_trace(rho, tuple(dims), int(keep[0])) - got).max() < 1e-12
             ok = ok and np.abs(ut.partial_trace(rho, list(dims), list(keep)) - got).max() < 1e-12 and np.abs(ut.partial_trace(rho, np.array(dims), tuple(keep)) - got).max() < 1e-12
+            ok = ok and np.abs(ut.partial_trace(rho, np.array(dims[::-1])[::-1], np.array(sorted(keep)[::-1], dtype=int)[::-1]) - got).max() < 1e-12      # non-contiguous views
         except Exception as ex:
             if not from_repo(ex):
                 raise
